@@ -293,7 +293,7 @@ func init() {
 				if io, bad := inconclusiveIf(res); bad {
 					return io
 				}
-				if res.Verdict != engine.Accept {
+				if !res.AcceptedHonestly() {
 					key := "rejects_valid_identity:" + tag
 					return fw.Violate(key, fmt.Sprintf("case %s (routed=%d factor=%d challenges=%d partial products=%d): %s %s", c.ID, s.NumRoutedWires, s.QDF, s.NumChallenges, s.numPartialProducts(), resStr(res), res.Msg))
 				}
@@ -514,7 +514,7 @@ func c16TwoChips(ctx *fw.Ctx, c fw.Case) fw.Outcome {
 	if io, bad := inconclusiveIf(res); bad {
 		return io
 	}
-	if brokenAt < 0 && res.Verdict != engine.Accept {
+	if brokenAt < 0 && !res.AcceptedHonestly() {
 		return fw.Violate("second_chip_rejects_valid_identity", fmt.Sprintf("case %s: %d chips with their own descriptions in one circuit, all identities valid: %s %s", c.ID, n, resStr(res), res.Msg))
 	}
 	if brokenAt >= 0 && res.Verdict == engine.Accept {
@@ -568,7 +568,7 @@ func c16Reuse(ctx *fw.Ctx, c fw.Case) fw.Outcome {
 	if io, bad := inconclusiveIf(res); bad {
 		return io
 	}
-	if brokenAt < 0 && res.Verdict != engine.Accept {
+	if brokenAt < 0 && !res.AcceptedHonestly() {
 		return fw.Violate("chip_reuse_rejects_valid_identity", fmt.Sprintf("case %s: %d valid instances verified by one PlonkChip: %s %s", c.ID, n, resStr(res), res.Msg))
 	}
 	if brokenAt >= 0 && res.Verdict == engine.Accept {
